@@ -166,6 +166,21 @@ func render(n *Node) string {
 		return "break"
 	case "continue":
 		return "continue"
+	case "stray":
+		// break / continue with no loop around it in this invocation: an error like any other, it ends the
+		// invocation and must not be taken for loop control by a loop of the caller
+		if n.N%2 == 0 {
+			return "break"
+		}
+		return "continue"
+	case "module":
+		// a module body runs as part of the enclosing invocation: its deferred calls belong to that invocation
+		return "module M" + id + " {\n" + renderList(n.Body) + "\n}"
+	case "switch":
+		if n.N%2 == 0 {
+			return "switch " + id + " {\ncase " + id + ":\n" + renderList(n.Body) + "\n}"
+		}
+		return "switch " + id + " {\ncase 0:\npv(" + id + ", \"wrong case\")\ndefault:\n" + renderList(n.Body) + "\n}"
 	case "recdefer":
 		// a warm-up call, then recursion: every invocation's deferred call runs once, with its own argument
 		warm := ""
@@ -504,6 +519,10 @@ func (m *model) exec(n *Node, fr *frame) sig {
 		return sig{kind: 3}
 	case "continue":
 		return sig{kind: 4}
+	case "stray":
+		return sig{kind: 3 + n.N%2} // turned into an error where the invocation ends (call)
+	case "module", "switch":
+		return m.list(n.Body, fr)
 	case "recdefer":
 		var walk func(k int) sig
 		walk = func(k int) sig {
@@ -718,6 +737,14 @@ func (g *gen) stmt(c gctx) *Node {
 			lc.loops = append(append([]int{}, c.loops...), id)
 			lc.noBrk = false
 			return &Node{K: kind, ID: id, N: 1 + g.r.Intn(3), Body: g.stmts(lc, 3)}
+		case k == 13 && !leaf && g.r.Intn(4) == 0:
+			bc := inner
+			bc.noBrk = true
+			if g.r.Intn(2) == 0 {
+				bc.noRet, bc.showE = true, false
+				return &Node{K: "module", ID: id, Body: g.stmts(bc, 3)}
+			}
+			return &Node{K: "switch", ID: id, N: g.r.Intn(2), Body: g.stmts(bc, 3)}
 		case k == 13 && !leaf:
 			n := &Node{K: "if", ID: id, Cond: []string{"true", "false"}[g.r.Intn(2)]}
 			if len(c.loops) > 0 && g.r.Intn(2) == 0 {
@@ -743,6 +770,8 @@ func (g *gen) stmt(c gctx) *Node {
 			return &Node{K: "rterr", ID: id, N: g.r.Intn(4)}
 		case k == 17 && len(c.loops) > 0 && !c.noBrk:
 			return &Node{K: []string{"break", "continue"}[g.r.Intn(2)], ID: id}
+		case k == 17 && len(c.loops) == 0 && !c.noBrk && !c.quirk && c.depth > 0 && g.r.Intn(2) == 0:
+			return &Node{K: "stray", ID: id, N: g.r.Intn(2)}
 		case k == 18 && len(c.catchVars) > 0:
 			return &Node{K: "rethrow", ID: id, N: c.catchVars[len(c.catchVars)-1]}
 		case k == 19 && !leaf:
@@ -1030,6 +1059,19 @@ func valid(w *Work) bool {
 				}
 			case "break", "continue":
 				if len(c.loops) == 0 || c.noBrk {
+					return false
+				}
+			case "stray":
+				if len(c.loops) != 0 {
+					return false
+				}
+			case "module", "switch":
+				bc := c
+				bc.noBrk = true
+				if n.K == "module" {
+					bc.noRet, bc.showE = true, false
+				}
+				if !chk(n.Body, bc) {
 					return false
 				}
 			case "rethrow":
